@@ -16,78 +16,89 @@ from .c09 import reachable
 LEVEL = 'other'
 
 
-def loop_over_vector(loop, lid):
-    """index loop `for (i = 0; i != / < V.size(); ++i)` over local vector lid -> index var id"""
-    if loop.get('k') != 'for':
-        return None
-    init = loop.get('init')
-    if not (init and init.get('k') == 'decl' and len(init['vars']) == 1 and int_value(init['vars'][0].get('init')) == 0):
-        return None
-    iv = init['vars'][0]['id']
-    c = strip(loop['c'], casts=True)
-    if not (c.get('k') == 'bin' and c['op'] in ('!=', '<') and is_local(c['a'], iv, casts=True)):
-        return None
-    b = strip(c['b'], casts=True)
-    if not (b.get('k') == 'call' and b.get('n') == 'size' and is_local(b.get('obj'), lid)):
-        return None
-    inc = strip(loop['inc'], casts=True)
-    if not (inc.get('k') == 'un' and inc['op'] == '++' and is_local(inc['e'], iv)):
-        return None
-    return iv
+def destructor_releases(d):
+    """~MasterMS deletes the mapped object of every entry: whole-map iterator loop with `delete it->second`, or the
+    drain loop `while (!map.empty()) { delete map.begin()->second; map.erase(map.begin()); }`.
+    True / False (recognised loop that does not delete) / None (idiom not recognised)"""
+    if d is None:
+        return False
+    verdict = None
+    for l in nodes(d.body, 'for'):
+        it = full_container_loop(l, lambda o: is_this_member(o, '_master_map'))
+        if it is not None and not assigned_in(l['body'], it):
+            dl = [n for n in nodes(l['body'], 'delete')]
+            early = [n for n in walk(l['body']) if n.get('k') in ('return', 'break', 'continue')]
+            if len(dl) == 1 and not early:
+                t = strip(dl[0]['e'], casts=True)
+                if t.get('k') == 'member' and t['n'] == 'second':
+                    return True
+            verdict = False
+    for l in nodes(d.body, 'while'):
+        c = strip(l.get('c'), casts=True)
+        if not (c.get('k') == 'un' and c['op'] == '!'):
+            continue
+        ce = strip(c['e'], casts=True)
+        if not (ce.get('k') == 'call' and ce.get('n') == 'empty' and is_this_member(ce.get('obj'), '_master_map')):
+            continue
+        # straight-line body: E(body) on a fresh evaluator gives delete(begin()->second) then erase(begin())
+        dl = [n for n in nodes(l['body'], 'delete')]
+        er = [n for n in calls(l['body'], name='erase') if is_this_member(n.get('obj'), '_master_map')]
+        early = [n for n in walk(l['body']) if n.get('k') in ('return', 'break', 'continue', 'if')]
+        if len(dl) == 1 and len(er) == 1 and not early:
+            def from_begin(e_, depth=0):
+                e_ = strip(e_, casts=True)
+                while e_.get('k') == 'construct' and len(e_['args']) == 1:
+                    e_ = strip(e_['args'][0], casts=True)
+                if e_.get('k') == 'call' and e_.get('n') in ('begin', 'cbegin') and is_this_member(e_.get('obj'), '_master_map'):
+                    return True
+                if e_.get('k') == 'local' and depth < 3:
+                    for dcl in nodes(l['body'], 'decl'):
+                        for v_ in dcl['vars']:
+                            if v_['id'] == e_['id'] and v_.get('init') is not None and not assigned_in(l['body'], e_['id']):
+                                return from_begin(v_['init'], depth + 1)
+                return False
+            t = strip(dl[0]['e'], casts=True)
+            tb = strip(t['base'], casts=True) if t.get('k') == 'member' and t['n'] == 'second' else {}
+            if tb.get('k') == 'call' and tb.get('n') in ('operator->', 'operator*') and from_begin(tb['args'][0]) and er[0]['args'] and from_begin(er[0]['args'][0]):
+                # the delete must come before the erase (the iterator is dead afterwards)
+                order = [n for n in walk(l['body']) if n is dl[0] or n is er[0]]
+                return order and order[0] is dl[0]
+            verdict = False
+    return verdict
 
 
-def elem_of(e, vec_id, idx_id):
-    e = strip(e, casts=True)
-    return e.get('k') == 'call' and e.get('n') == 'operator[]' and is_local(e['args'][0], vec_id) and is_local(e['args'][1], idx_id, casts=True)
-
-
-def ownership_init_mms(ctx, prog, im, sc):
-    """O1 on init_mms: every candidate is deleted or installed exactly once on every path that returns normally"""
-    st = flat_stmts(im.body)
-    vec = None
-    for s in st:
-        if s.get('k') == 'decl':
-            for v in s['vars']:
-                if 'std::vector<MASA::manufactured_solution<' in v['t']:
-                    vec = v['id']
-    if vec is None:
-        raise AnalysisBroken('init_mms: candidate vector not found')
-    loops = [l for l in st if l.get('k') == 'for' and loop_over_vector(l, vec) is not None]
-    if len(loops) < 1:
-        raise AnalysisBroken('init_mms: no index loop over the candidate vector (ownership idiom not recognised)')
-    main = loops[0]
-    iv = loop_over_vector(main, vec)
-    E = terms.Evaluator(prog, noreturn=('masa_exit',), opaque=('get_list_mms', 'masa_map', 'return_name', 'list_mms'))
-    E.run(im)
-    # path enumeration of the loop body on the IR: use the evaluator's loop event
-    outs = E.run(im)
-    body_paths = None
-    for o in outs + E.trace.exit_paths:
-        for e in o.events:
-            if e[0] == 'loop' and e[2] == main.get('l'):
-                body_paths = e[1][1]
-    if body_paths is None:
-        # the loop event is attached to the path that continues after the loop
-        for o in outs:
-            for e in o.events:
-                if e[0] == 'loop':
-                    body_paths = e[1][1]
-    # the evaluator records only falling body paths in the loop event; returning paths are separate outs
-    ret_in_loop = [o for o in outs if o.kind == 'ret' and any(c == ('sym', '@loop:cond') for c in o.conds)]
-    problems = []
-    if ret_in_loop:
-        # accepted only if a clean-up loop over the remaining candidates precedes the return
-        for o in ret_in_loop:
-            dels = [e for e in o.events if e[0] == 'loop' and any(x[0] == 'delete' for k_, c_, evs in e[1][1] for x in evs)]
-            if not dels:
-                problems.append('returns from inside the candidate loop at the first match without deleting the remaining candidates: every masa_init leaks the objects after the match')
-    # each falling body path must delete or install the current element exactly once
-    for kind, conds, evs in (body_paths or []):
-        d = [e for e in evs if e[0] == 'delete']
-        w = [e for e in evs if e[0] == 'write' and e[1] == '_master_map']
-        if kind == 'fall' and len(d) + len(w) != 1:
-            problems.append('a path through the candidate loop neither deletes nor installs the current candidate (or does both)')
-    return problems, vec, iv
+def local_new_sites(prog, f, scalar):
+    """new-expressions outside the catalogue machinery: decided locally.  Returns [(loc, verdict, why)]: True when every returning
+    path deletes the object exactly once, False when a path neither deletes it nor lets it escape, None otherwise"""
+    E = terms.Evaluator(prog, scalar=scalar, noreturn=('masa_exit',))
+    try:
+        outs = E.run(f)
+    except RecursionError:
+        return [(n['l'], None, 'function too deep') for n in walk(f.body) if n.get('k') == 'new']
+    res = {}
+    from ..ownership import flat_events
+    for o in outs:
+        if o.kind == 'exit':
+            continue
+        evs, summ = flat_events(o.events)
+        for e in evs:
+            if e[0] != 'new':
+                continue
+            obj = ('new', e[1], e[2])
+            nd = len([x for x in evs if x[0] == 'delete' and x[1] == obj])
+            if nd == 1 and not summ:
+                v, why = True, ''
+            elif nd > 1:
+                v, why = False, 'deleted %d times on one path' % nd
+            else:
+                escapes = any(obj in list(terms.subterms(t)) for t in list(o.mem.values()) + ([o.ret] if o.ret is not None else [])) or \
+                    any(x[0] in ('call', 'store', 'write-through') and obj in list(terms.subterms(x[1])) for x in evs) or bool(summ)
+                v, why = (None, 'the object escapes the function (stored, returned or passed on): ownership not followed') if escapes else \
+                    (False, 'a returning path neither deletes the object nor hands it to anyone: leak')
+            old = res.get(e[2])
+            if old is None or old[0] is True or (old[0] is None and v is False):
+                res[e[2]] = (v, why)
+    return [(loc, v, why) for loc, (v, why) in res.items()]
 
 
 def run(ctx, prog):
@@ -108,137 +119,79 @@ def run(ctx, prog):
                 new_sites.append((f, n))
             elif n.get('k') == 'delete':
                 del_sites.append((f, n))
-    allowed_new = {'get_list_mms'}
-    allowed_del = {'init_mms', 'masa_printid', '~MasterMS'}
-    for f, n in new_sites:
-        ctx.ob('C19.O2', 'new-site|%s|%s' % (f.q, n['l']), f.n in allowed_new, n['l'], 'new-expression in %s: no ownership rule covers this site' % f.q, nontrivial=False)
-    for f, n in del_sites:
-        ctx.ob('C19.O2', 'delete-site|%s|%s' % (f.q, n['l']), f.n in allowed_del and not n.get('array'), n['l'],
-               'delete-expression in %s: no ownership rule covers this site' % f.q, sample='%s deletes %s' % (f.n, show(n['e'])))
-    ctx.floor('new_sites', len(new_sites), 2 * 37)
-    ctx.floor('delete_sites', len(del_sites), 2 * 3)
+    from .. import ownership as own
+    covered_new, covered_del = set(), set()
+    per_scalar = {}
     for scalar in cat.SCALARS:
         sc = 'ld' if scalar == 'long double' else 'd'
         rq = [r for r in prog.records if r.endswith('MasterMS<%s>' % scalar)][0]
         meths = {f.n: f for f in prog.methods_of(rq)}
+        ctx.require('init_mms' in meths, 'MasterMS<%s>::init_mms not in IR' % scalar)
         im = meths['init_mms']
-        # ---- O1 init_mms
-        problems, vec, iv = ownership_init_mms(ctx, prog, im, sc)
-        ctx.ob('C19.O1', 'init_mms-candidates|' + sc, not problems, im.where, 'init_mms: ' + '; '.join(problems),
-               sample='every candidate deleted or installed exactly once')
-        # overwrite of an existing key
-        E = terms.Evaluator(prog, scalar=scalar, noreturn=('masa_exit',), opaque=('get_list_mms', 'masa_map', 'return_name', 'list_mms'))
-        outs = E.run(im)
-        bad = []
-        key = im.params[0]['n']
-        for o in outs:
-            evs = []
-
-            def flat(es):
-                for e in es:
-                    if e[0] == 'loop':
-                        for k_, c_, sub in e[1][1]:
-                            flat(sub)
-                    else:
-                        evs.append(e)
-            flat(o.events)
-            for i, e in enumerate(evs):
-                if e[0] == 'write' and e[1] == '_master_map':
-                    before = evs[:i]
-                    freed = False
-                    for b in before:
-                        if b[0] == 'delete' and '_master_map' in terms.fmt(b[1]) and key in terms.fmt(b[1]):
-                            freed = True
-                        if b[0] == 'write' and b[1] == '_master_map':
-                            pass
-                    # also accepted: the path condition proves the key is absent (find(key) == end())
-                    def is_find_end(c, op):
-                        if c[0] == 'call' and c[1] == 'op:operator' + op and len(c[2]) == 2:
-                            a, b_ = c[2]
-                            return a[0] == 'mcall' and a[1] == ('sym', '_master_map') and a[2] == 'find' and a[3] == (('sym', key),) and \
-                                b_[0] == 'mcall' and b_[1] == ('sym', '_master_map') and b_[2] in ('end', 'cend')
-                        return False
-                    absent = any(is_find_end(c, '==') or (c[0] == 'not' and is_find_end(c[1], '!=')) for c in o.conds)
-                    if not freed and not absent:
-                        bad.append(e[2])
-        # a registered object that is deleted must have its map entry replaced before the function is left (return or fatal exit)
-        dangling = []
-        for o in outs + E.trace.exit_paths:
-            evs = []
-
-            def flat2(es):
-                for e in es:
-                    if e[0] == 'loop':
-                        for k_, c_, sub in e[1][1]:
-                            if k_ in ('fall', 'cont'):
-                                flat2(sub)
-                    else:
-                        evs.append(e)
-            flat2(o.events)
-            for i, e in enumerate(evs):
-                if e[0] == 'delete' and '_master_map' in terms.fmt(e[1]):
-                    if not any(x[0] == 'write' and x[1] == '_master_map' for x in evs[i + 1:]):
-                        dangling.append((e[2], o.kind))
-        ctx.ob('C19.O1', 'init_mms-no-dangling-entry|' + sc, not dangling, im.where,
-               'init_mms deletes a registered solution at %s and can leave the function (%s) without replacing its map entry: dangling pointer, later use-after-free / double delete' % (
-                   dangling[0][0] if dangling else '', 'fatal exit' if dangling and dangling[0][1] == 'exit' else 'return'),
-               sample='every deleted registered object has its entry replaced on the same path')
-        ctx.ob('C19.O1', 'init_mms-overwrite|' + sc, not bad, im.where,
-               'init_mms overwrites _master_map[%s] at %s without deleting the object previously registered under that handle: re-initialising a handle leaks it' % (key, bad[:1]),
-               sample='old object deleted before the map entry is replaced')
-        # ---- O1 destructor
-        d = meths.get('~MasterMS')
-        ok = False
-        if d is not None:
-            for l in nodes(d.body, 'for'):
-                it = full_container_loop(l, lambda o: is_this_member(o, '_master_map'))
-                if it is not None and not assigned_in(l['body'], it):
-                    dl = [n for n in nodes(l['body'], 'delete')]
-                    if len(dl) == 1:
-                        t = strip(dl[0]['e'], casts=True)
-                        ok = t.get('k') == 'member' and t['n'] == 'second'
-        ctx.ob('C19.O1', 'destructor|' + sc, ok, d.where if d else prog.records[rq]['l'], '~MasterMS does not delete every mapped object', sample='for it in _master_map: delete it->second')
-        # ---- O1 printid
         pf = [f for f in prog.functions if f.q == 'MASA::masa_printid<%s>' % scalar]
         ctx.require(len(pf) == 1, 'masa_printid<%s> not found' % scalar)
         pf = pf[0]
-        ok = False
-        vec_id = None
-        for s in flat_stmts(pf.body):
-            if s.get('k') == 'decl':
-                for v in s['vars']:
-                    if 'std::vector<MASA::manufactured_solution<' in v['t']:
-                        vec_id = v['id']
-        for l in nodes(pf.body, 'for'):
-            it = full_container_loop(l, lambda o: is_local(o, vec_id))
-            if it is not None and not assigned_in(l['body'], it):
-                body = flat_stmts(l['body'])
-                dl = [s for s in body if strip(s).get('k') == 'delete']
-                early = [n for n in walk(l['body']) if n.get('k') in ('return', 'break', 'continue')]
-                if len(dl) == 1 and not early:
-                    t = strip(dl[0]['e'], casts=True)
-                    ok = t.get('k') == 'call' and t.get('n') == 'operator*' and is_local(t['args'][0], it)
-        ctx.ob('C19.O1', 'printid|' + sc, ok, pf.where, 'masa_printid does not delete every candidate exactly once', sample='for it in anim: delete *it')
-        # ---- O2 no double delete on a path
-        for f in (im, pf):
-            E = terms.Evaluator(prog, scalar=scalar, noreturn=('masa_exit',), opaque=('get_list_mms', 'masa_map', 'return_name', 'list_mms'))
-            outs = E.run(f)
-            dbl = False
-            for o in outs:
-                def chk(es):
-                    seen = []
-                    for e in es:
-                        if e[0] == 'delete':
-                            if e[1] in seen:
-                                return True
-                            seen.append(e[1])
-                        if e[0] == 'loop':
-                            for k_, c_, sub in e[1][1]:
-                                if chk(sub):
-                                    return True
-                    return False
-                dbl = dbl or chk(o.events)
-            ctx.ob('C19.O2', 'no-double-delete|%s|%s' % (f.n, sc), not dbl, f.where, '%s deletes the same expression twice on one path' % f.n, sample='%s: at most one delete per object per path' % f.n)
+        # ---- O1: ownership simulation of init_mms and masa_printid (sa/ownership.py)
+        try:
+            res, info = own.check_init(prog, im, scalar)
+            E_i, facts_i = own.analyse(prog, im, scalar)
+            resp, infop = own.check_printid(prog, pf, scalar)
+            E_p, facts_p = own.analyse(prog, pf, scalar)
+        except RecursionError:
+            raise AnalysisBroken('init_mms / masa_printid: simulation too deep')
+        for F in facts_i + facts_p:
+            for e in F.events:
+                if e[0] == 'new':
+                    covered_new.add(e[2])
+                elif e[0] == 'delete':
+                    covered_del.add(e[2])
+        ctx.require(info['created'] and min(info['created']) >= 1, 'init_mms: the simulation creates no catalogue object (get_list_mms not followed)')
+        incomplete = bool(res['complete'])
+
+        def ob(rule_key, problems, where, sample, incomplete_=False):
+            ok = (not problems) if not incomplete_ else (False if problems else None)
+            msg = '; '.join(problems[:2]) + (' (+%d more)' % (len(problems) - 2) if len(problems) > 2 else '')
+            if ok is None:
+                msg = 'not decided: ' + '; '.join(res['complete'][:2] + resp['complete'][:2])
+            ctx.ob('C19.O1', rule_key + '|' + sc, ok, where, msg, sample=sample)
+        ob('init_mms-candidates', res['candidates'], im.where, 'every candidate deleted or installed exactly once on each of %d returning paths (%d objects)' % (info['returning'], max(info['created'])), incomplete)
+        ob('init_mms-no-dangling-entry', res['dangling'], im.where, 'every deleted registered object has its entry replaced on the same path', incomplete)
+        ob('init_mms-overwrite', res['old-entry'], im.where, 'old object deleted before the map entry is replaced', incomplete)
+        ob('printid', resp['candidates'], pf.where, 'masa_printid deletes each of the %d objects exactly once' % max(infop['created'] or [0]), bool(resp['complete']))
+        ctx.ob('C19.O2', 'no-double-delete|init_mms|%s' % sc, not res['double'], im.where, '; '.join(res['double'][:2]), sample='init_mms: at most one delete per object per path')
+        ctx.ob('C19.O2', 'no-double-delete|masa_printid|%s' % sc, not resp['double'], pf.where, '; '.join(resp['double'][:2]), sample='masa_printid: at most one delete per object per path')
+        # ---- O1 destructor
+        d = meths.get('~MasterMS')
+        ok = destructor_releases(d)
+        ctx.ob('C19.O1', 'destructor|' + sc, ok, d.where if d else prog.records[rq]['l'],
+               '~MasterMS does not delete every mapped object' if ok is False else 'the destructor releases the registry by an idiom outside the two recognised ones (iterator loop / drain loop): not decided',
+               sample='for it in _master_map: delete it->second')
+        if d is not None:
+            for n in walk(d.body):
+                if n.get('k') == 'delete':
+                    covered_del.add(n['l'])
+        per_scalar[scalar] = (rq, meths, im, pf)
+    # ---- O2: every allocation / deallocation site is covered by an ownership rule
+    for f, n in new_sites:
+        if n['l'] in covered_new:
+            ctx.ob('C19.O2', 'new-site|%s|%s' % (f.q, n['l']), True, n['l'], nontrivial=False)
+    done_local = set()
+    for f, n in new_sites:
+        if n['l'] in covered_new or (f.q, f.sig) in done_local:
+            continue
+        done_local.add((f.q, f.sig))
+        for loc, v, why in local_new_sites(prog, f, f.scalar or 'double'):
+            ctx.ob('C19.O2', 'new-site|%s|%s' % (f.q, loc), v, loc, 'new-expression in %s: %s' % (f.q, why), nontrivial=False)
+    for f, n in del_sites:
+        cov = n['l'] in covered_del and not n.get('array')
+        ctx.ob('C19.O2', 'delete-site|%s|%s' % (f.q, n['l']), True if cov else None, n['l'],
+               'delete-expression in %s is not executed by the ownership simulation of init_mms / masa_printid nor part of ~MasterMS: not decided' % f.q,
+               sample='%s deletes %s' % (f.n, show(n['e'])))
+    ctx.floor('new_sites', len(new_sites), 2 * 30)
+    ctx.floor('delete_sites', len(del_sites), 2 * 2)
+    for scalar in cat.SCALARS:
+        sc = 'ld' if scalar == 'long double' else 'd'
+        rq, meths, im, pf = per_scalar[scalar]
         # ---- O3
         B = cat.BASE % scalar
         ctors = [f for f in prog.methods_of(B) if f.get('ctor')]
